@@ -58,6 +58,28 @@ mod proofs {
   fn f_box(_s: &LyBox) { unsafe { FLAGS[11] += 1 } }
   fn f_tuple(_s: &Tuple) { unsafe { FLAGS[12] += 1 } }
 
+  fn dispatch_kind(i: usize) {
+    // a raw object of kind i: a real header followed by zeroed payload (the stubbed bodies never read it)
+    let layout = std::alloc::Layout::from_size_align(256, 16).unwrap();
+    let ptr = unsafe { std::alloc::alloc_zeroed(layout) };
+    unsafe { std::ptr::write(ptr as *mut ObjHeader, ObjHeader::new(kind_of(i))); }
+    let obj = ObjectRef::new(std::ptr::NonNull::new(ptr).unwrap());
+    assert!(obj.kind() == kind_of(i) && !obj.marked());
+    obj.trace();
+    let mut total = 0;
+    let mut j = 0;
+    while j < 13 { total += unsafe { FLAGS[j] } as usize; j += 1; }
+    assert!(unsafe { FLAGS[i] } == 1 && total == 1, "kind i is traced by its own body, exactly once");
+    // already marked: nothing is traced again (termination on cycles)
+    if obj.marked() {
+      obj.trace();
+      let mut total2 = 0;
+      let mut j = 0;
+      while j < 13 { total2 += unsafe { FLAGS[j] } as usize; j += 1; }
+      assert!(total2 == 1);
+    }
+  }
+
   #[kani::proof]
   #[kani::unwind(15)]
   #[kani::stub(<Channel as Trace>::trace, f_channel)]
@@ -72,29 +94,182 @@ mod proofs {
   #[kani::stub(<LyStr as Trace>::trace, f_string)]
   #[kani::stub(<LyBox as Trace>::trace, f_box)]
   #[kani::stub(<Tuple as Trace>::trace, f_tuple)]
-  fn o05_2_dispatch() {
-    let i: usize = kani::any();
-    kani::assume(i < 13);
-    // Map<K, V>'s generic Trace impl cannot be stubbed by Kani; a Map object with a zeroed payload is not a valid hash table
-    kani::assume(i != 7);
-    // a raw object of kind i: a real header followed by zeroed payload (the stubbed bodies never read it)
-    let layout = std::alloc::Layout::from_size_align(256, 16).unwrap();
-    let ptr = unsafe { std::alloc::alloc_zeroed(layout) };
-    unsafe { std::ptr::write(ptr as *mut ObjHeader, ObjHeader::new(kind_of(i))); }
-    let obj = ObjectRef::new(std::ptr::NonNull::new(ptr).unwrap());
-    assert!(obj.kind() == kind_of(i) && !obj.marked());
-    obj.trace();
-    let mut total = 0;
-    let mut j = 0;
-    while j < 13 { total += unsafe { FLAGS[j] } as usize; j += 1; }
-    assert!(unsafe { FLAGS[i] } == 1 && total == 1, "kind i is traced by its own body, exactly once");
-    // already marked: nothing is traced again
-    if obj.marked() {
-      obj.trace();
-      let mut total2 = 0;
-      let mut j = 0;
-      while j < 13 { total2 += unsafe { FLAGS[j] } as usize; j += 1; }
-      assert!(total2 == 1);
-    }
-  }
+  fn o05_2_dispatch_channel() { dispatch_kind(0); }
+
+  #[kani::proof]
+  #[kani::unwind(15)]
+  #[kani::stub(<Channel as Trace>::trace, f_channel)]
+  #[kani::stub(<Class as Trace>::trace, f_class)]
+  #[kani::stub(<Closure as Trace>::trace, f_closure)]
+  #[kani::stub(<Enumerator as Trace>::trace, f_enumerator)]
+  #[kani::stub(<Fun as Trace>::trace, f_fun)]
+  #[kani::stub(<Instance as Trace>::trace, f_instance)]
+  #[kani::stub(<List as Trace>::trace, f_list)]
+  #[kani::stub(<Method as Trace>::trace, f_method)]
+  #[kani::stub(<Native as Trace>::trace, f_native)]
+  #[kani::stub(<LyStr as Trace>::trace, f_string)]
+  #[kani::stub(<LyBox as Trace>::trace, f_box)]
+  #[kani::stub(<Tuple as Trace>::trace, f_tuple)]
+  fn o05_2_dispatch_class() { dispatch_kind(1); }
+
+  #[kani::proof]
+  #[kani::unwind(15)]
+  #[kani::stub(<Channel as Trace>::trace, f_channel)]
+  #[kani::stub(<Class as Trace>::trace, f_class)]
+  #[kani::stub(<Closure as Trace>::trace, f_closure)]
+  #[kani::stub(<Enumerator as Trace>::trace, f_enumerator)]
+  #[kani::stub(<Fun as Trace>::trace, f_fun)]
+  #[kani::stub(<Instance as Trace>::trace, f_instance)]
+  #[kani::stub(<List as Trace>::trace, f_list)]
+  #[kani::stub(<Method as Trace>::trace, f_method)]
+  #[kani::stub(<Native as Trace>::trace, f_native)]
+  #[kani::stub(<LyStr as Trace>::trace, f_string)]
+  #[kani::stub(<LyBox as Trace>::trace, f_box)]
+  #[kani::stub(<Tuple as Trace>::trace, f_tuple)]
+  fn o05_2_dispatch_closure() { dispatch_kind(2); }
+
+  #[kani::proof]
+  #[kani::unwind(15)]
+  #[kani::stub(<Channel as Trace>::trace, f_channel)]
+  #[kani::stub(<Class as Trace>::trace, f_class)]
+  #[kani::stub(<Closure as Trace>::trace, f_closure)]
+  #[kani::stub(<Enumerator as Trace>::trace, f_enumerator)]
+  #[kani::stub(<Fun as Trace>::trace, f_fun)]
+  #[kani::stub(<Instance as Trace>::trace, f_instance)]
+  #[kani::stub(<List as Trace>::trace, f_list)]
+  #[kani::stub(<Method as Trace>::trace, f_method)]
+  #[kani::stub(<Native as Trace>::trace, f_native)]
+  #[kani::stub(<LyStr as Trace>::trace, f_string)]
+  #[kani::stub(<LyBox as Trace>::trace, f_box)]
+  #[kani::stub(<Tuple as Trace>::trace, f_tuple)]
+  fn o05_2_dispatch_enumerator() { dispatch_kind(3); }
+
+  #[kani::proof]
+  #[kani::unwind(15)]
+  #[kani::stub(<Channel as Trace>::trace, f_channel)]
+  #[kani::stub(<Class as Trace>::trace, f_class)]
+  #[kani::stub(<Closure as Trace>::trace, f_closure)]
+  #[kani::stub(<Enumerator as Trace>::trace, f_enumerator)]
+  #[kani::stub(<Fun as Trace>::trace, f_fun)]
+  #[kani::stub(<Instance as Trace>::trace, f_instance)]
+  #[kani::stub(<List as Trace>::trace, f_list)]
+  #[kani::stub(<Method as Trace>::trace, f_method)]
+  #[kani::stub(<Native as Trace>::trace, f_native)]
+  #[kani::stub(<LyStr as Trace>::trace, f_string)]
+  #[kani::stub(<LyBox as Trace>::trace, f_box)]
+  #[kani::stub(<Tuple as Trace>::trace, f_tuple)]
+  fn o05_2_dispatch_fun() { dispatch_kind(4); }
+
+  #[kani::proof]
+  #[kani::unwind(15)]
+  #[kani::stub(<Channel as Trace>::trace, f_channel)]
+  #[kani::stub(<Class as Trace>::trace, f_class)]
+  #[kani::stub(<Closure as Trace>::trace, f_closure)]
+  #[kani::stub(<Enumerator as Trace>::trace, f_enumerator)]
+  #[kani::stub(<Fun as Trace>::trace, f_fun)]
+  #[kani::stub(<Instance as Trace>::trace, f_instance)]
+  #[kani::stub(<List as Trace>::trace, f_list)]
+  #[kani::stub(<Method as Trace>::trace, f_method)]
+  #[kani::stub(<Native as Trace>::trace, f_native)]
+  #[kani::stub(<LyStr as Trace>::trace, f_string)]
+  #[kani::stub(<LyBox as Trace>::trace, f_box)]
+  #[kani::stub(<Tuple as Trace>::trace, f_tuple)]
+  fn o05_2_dispatch_instance() { dispatch_kind(5); }
+
+  #[kani::proof]
+  #[kani::unwind(15)]
+  #[kani::stub(<Channel as Trace>::trace, f_channel)]
+  #[kani::stub(<Class as Trace>::trace, f_class)]
+  #[kani::stub(<Closure as Trace>::trace, f_closure)]
+  #[kani::stub(<Enumerator as Trace>::trace, f_enumerator)]
+  #[kani::stub(<Fun as Trace>::trace, f_fun)]
+  #[kani::stub(<Instance as Trace>::trace, f_instance)]
+  #[kani::stub(<List as Trace>::trace, f_list)]
+  #[kani::stub(<Method as Trace>::trace, f_method)]
+  #[kani::stub(<Native as Trace>::trace, f_native)]
+  #[kani::stub(<LyStr as Trace>::trace, f_string)]
+  #[kani::stub(<LyBox as Trace>::trace, f_box)]
+  #[kani::stub(<Tuple as Trace>::trace, f_tuple)]
+  fn o05_2_dispatch_list() { dispatch_kind(6); }
+
+  #[kani::proof]
+  #[kani::unwind(15)]
+  #[kani::stub(<Channel as Trace>::trace, f_channel)]
+  #[kani::stub(<Class as Trace>::trace, f_class)]
+  #[kani::stub(<Closure as Trace>::trace, f_closure)]
+  #[kani::stub(<Enumerator as Trace>::trace, f_enumerator)]
+  #[kani::stub(<Fun as Trace>::trace, f_fun)]
+  #[kani::stub(<Instance as Trace>::trace, f_instance)]
+  #[kani::stub(<List as Trace>::trace, f_list)]
+  #[kani::stub(<Method as Trace>::trace, f_method)]
+  #[kani::stub(<Native as Trace>::trace, f_native)]
+  #[kani::stub(<LyStr as Trace>::trace, f_string)]
+  #[kani::stub(<LyBox as Trace>::trace, f_box)]
+  #[kani::stub(<Tuple as Trace>::trace, f_tuple)]
+  fn o05_2_dispatch_method() { dispatch_kind(8); }
+
+  #[kani::proof]
+  #[kani::unwind(15)]
+  #[kani::stub(<Channel as Trace>::trace, f_channel)]
+  #[kani::stub(<Class as Trace>::trace, f_class)]
+  #[kani::stub(<Closure as Trace>::trace, f_closure)]
+  #[kani::stub(<Enumerator as Trace>::trace, f_enumerator)]
+  #[kani::stub(<Fun as Trace>::trace, f_fun)]
+  #[kani::stub(<Instance as Trace>::trace, f_instance)]
+  #[kani::stub(<List as Trace>::trace, f_list)]
+  #[kani::stub(<Method as Trace>::trace, f_method)]
+  #[kani::stub(<Native as Trace>::trace, f_native)]
+  #[kani::stub(<LyStr as Trace>::trace, f_string)]
+  #[kani::stub(<LyBox as Trace>::trace, f_box)]
+  #[kani::stub(<Tuple as Trace>::trace, f_tuple)]
+  fn o05_2_dispatch_native() { dispatch_kind(9); }
+
+  #[kani::proof]
+  #[kani::unwind(15)]
+  #[kani::stub(<Channel as Trace>::trace, f_channel)]
+  #[kani::stub(<Class as Trace>::trace, f_class)]
+  #[kani::stub(<Closure as Trace>::trace, f_closure)]
+  #[kani::stub(<Enumerator as Trace>::trace, f_enumerator)]
+  #[kani::stub(<Fun as Trace>::trace, f_fun)]
+  #[kani::stub(<Instance as Trace>::trace, f_instance)]
+  #[kani::stub(<List as Trace>::trace, f_list)]
+  #[kani::stub(<Method as Trace>::trace, f_method)]
+  #[kani::stub(<Native as Trace>::trace, f_native)]
+  #[kani::stub(<LyStr as Trace>::trace, f_string)]
+  #[kani::stub(<LyBox as Trace>::trace, f_box)]
+  #[kani::stub(<Tuple as Trace>::trace, f_tuple)]
+  fn o05_2_dispatch_string() { dispatch_kind(10); }
+
+  #[kani::proof]
+  #[kani::unwind(15)]
+  #[kani::stub(<Channel as Trace>::trace, f_channel)]
+  #[kani::stub(<Class as Trace>::trace, f_class)]
+  #[kani::stub(<Closure as Trace>::trace, f_closure)]
+  #[kani::stub(<Enumerator as Trace>::trace, f_enumerator)]
+  #[kani::stub(<Fun as Trace>::trace, f_fun)]
+  #[kani::stub(<Instance as Trace>::trace, f_instance)]
+  #[kani::stub(<List as Trace>::trace, f_list)]
+  #[kani::stub(<Method as Trace>::trace, f_method)]
+  #[kani::stub(<Native as Trace>::trace, f_native)]
+  #[kani::stub(<LyStr as Trace>::trace, f_string)]
+  #[kani::stub(<LyBox as Trace>::trace, f_box)]
+  #[kani::stub(<Tuple as Trace>::trace, f_tuple)]
+  fn o05_2_dispatch_lybox() { dispatch_kind(11); }
+
+  #[kani::proof]
+  #[kani::unwind(15)]
+  #[kani::stub(<Channel as Trace>::trace, f_channel)]
+  #[kani::stub(<Class as Trace>::trace, f_class)]
+  #[kani::stub(<Closure as Trace>::trace, f_closure)]
+  #[kani::stub(<Enumerator as Trace>::trace, f_enumerator)]
+  #[kani::stub(<Fun as Trace>::trace, f_fun)]
+  #[kani::stub(<Instance as Trace>::trace, f_instance)]
+  #[kani::stub(<List as Trace>::trace, f_list)]
+  #[kani::stub(<Method as Trace>::trace, f_method)]
+  #[kani::stub(<Native as Trace>::trace, f_native)]
+  #[kani::stub(<LyStr as Trace>::trace, f_string)]
+  #[kani::stub(<LyBox as Trace>::trace, f_box)]
+  #[kani::stub(<Tuple as Trace>::trace, f_tuple)]
+  fn o05_2_dispatch_tuple() { dispatch_kind(12); }
+
 }
